@@ -47,6 +47,26 @@ def header_stream(ctx, valid_cred):
     return items
 
 
+def errstr_stream(ctx):
+    """response-type messages sent TO the daemon with a non-zero error code and an error string the client chose: the only
+    client-chosen text that reaches the daemon's log (file, stderr or syslog).  printf conversions, very long strings, control
+    bytes, strings without NUL."""
+    strs = [b"%s" * 12, b"%s" * 60, b"%n%n%n%n", b"%11$s %12$n", b"%x" * 40 + b"%s", b"%999999d", b"%*d%*d%*d", b"%ls%ls%ls%ls%ls%ls%ls%ls%ls%ls%ls",
+            b"%%", b"%", b"plain text", b"\x1b[2J\r\nmunged: Notice: forged line", b"A" * 254, b"\xff" * 100, b"%s%s%s%s%s%s%s%s%s%s%s\0tail"]
+    items = []
+    for st in strs:
+        for nul in (b"\0", b""):
+            e = st + nul
+            if len(e) > 255:
+                e = e[:255]
+            for t, tail in ((3, struct.pack(">I", 0)),
+                            (5, bytes([4, 5, 0, 0]) + struct.pack(">IB", 300, 4) + b"\x7f\0\0\1" + struct.pack(">IIIIIII", 1, 2, 3, 4, 5, 6, 0))):
+                for code in (1, 8, 255):
+                    b = bytes([code, len(e)]) + e + tail
+                    items.append(("errstr/type%d" % t, rig.hdr(t, 0, len(b)) + b))
+    return items
+
+
 def encreq_stream(ctx):
     rng = ctx.rng
     items = []
